@@ -54,7 +54,7 @@ def post_parse_gaf_line(self, line, result):
 
 def setup(ctx):
     from gaftools import gaf
-    M.attach(gaf.GAF, "parse_gaf_line", post=post_parse_gaf_line)
+    M.attach(gaf.GAF, "parse_gaf_line", post=post_parse_gaf_line, optional=True)
 
 
 def synth(rng, n, sit):
